@@ -32,6 +32,29 @@ class Sub:
         return getattr(self._c, a)
 
 
+def selftest_one(ctx, tspec, trace, corruption, tries=60):
+    """Binding self-test with one corruption: applied to the first sub-trace (seeded order) it fits; the trace
+    spec must reject the result.  Returns [] when it fits none of the sub-traces tried."""
+    import copy
+    import random
+    name, fn = corruption
+    parts = vlib.split_traces(trace)
+    rng = random.Random(ctx.seed)
+    rng.shuffle(parts)
+    sc = Sub(ctx, 'self')
+    for _, recs in parts[:tries]:
+        bad = fn(copy.deepcopy(recs), rng)
+        if bad is None:
+            continue
+        p = os.path.join(sc.scratch, 'selftest_%s.ndjson' % name)
+        vlib.write_ndjson(p, bad)
+        v = ctx.validate_trace(tspec['dirs'], tspec['module'], tspec['cfg'], p, heap=tspec.get('heap'))
+        if v['accepted']:
+            raise vlib.Infra('binding self-test: corruption %r was ACCEPTED by %s (vacuous trace spec)' % (name, tspec['module']))
+        return [{'corruption': name, 'rejected_at': v['highwater'], 'violated': v['violated']}]
+    return []
+
+
 CSPEC = {'dirs': ['cpctrl'], 'module': 'CPCtrlTrace.tla', 'cfg': 'CPCtrlTrace.cfg', 'timeout': 3000}
 CPU = 'c19cp'
 
@@ -229,14 +252,9 @@ def phase_random(ctx, drv, thorough, res):
     res['first'] = t
     res['events'] += stats['events']
     with ThreadPoolExecutor(max_workers=8) as ex:
-        futs = [ex.submit(common.selftest_binding, Sub(ctx, 'cpself'), CSPEC, t, [c]) for c in corruptions(thorough)]
+        futs = [ex.submit(selftest_one, ctx, CSPEC, t, c) for c in corruptions(thorough)]
         for f in futs:
-            try:
-                res['selftest'] += f.result()
-            except vlib.Infra as e:
-                if 'no corruption applicable' in str(e) and ctx.violations:
-                    continue
-                raise
+            res['selftest'] += f.result()
 
 
 def phase_known(ctx, drv, thorough, res):
